@@ -35,6 +35,6 @@ def task_cx(tier, only=None):
 
 
 def tasks(tier, seed):
-    names = ["two_coeffs", "products_and_star", "repeated_species", "repeated_nonadjacent", "inactive_groups", "equilibrium_arrow", "allowed_keys", "param_and_kwargs",
+    names = ["two_coeffs", "products_and_star", "repeated_species", "repeated_nonadjacent", "long_roundtrip", "inactive_groups", "equilibrium_arrow", "allowed_keys", "param_and_kwargs",
              "print_parse_roundtrip", "symbolic_key", "system_roundtrip", "eqsystem_roundtrip", "float_coefficients", "big_int_param"]
     return [dict(id="C12.%s" % n, fn="task_cx", kwargs=dict(tier=tier, only="_h_" + n), timeout=4000) for n in names]
